@@ -253,8 +253,8 @@ type c07Hist struct {
 	rejectedAt  map[string]int64 // "u|pw" -> last answered rejection
 	confSeq     map[string]int   // the same two, as positions in the history
 	rejSeq      map[string]int
-	void        bool // the directory did not behave as scripted (a bind timed out under load)
-	rejOutage   map[string]bool  // ... and whether the primary was not fully up then
+	void        bool            // the directory did not behave as scripted (a bind timed out under load)
+	rejOutage   map[string]bool // ... and whether the primary was not fully up then
 }
 
 var c07Users = []string{"", "alice", "bob", "carol"}
